@@ -118,6 +118,14 @@ def ensure_built(verbose=False):
     try:
         t0 = time.time()
         os.makedirs(wd, exist_ok=True)
+        if os.environ.get('VERIF_NOSYNC') and os.path.exists(
+                os.path.join(wd, '.verif_build_stamp')):
+            # development aid: use the work tree as it is (never set by
+            # registered commands, which must rebuild from /repo)
+            ih = open(os.path.join(wd, '.verif_build_stamp')).read().strip()
+            home = os.path.join(CACHE, 'home-' + ih[:16])
+            os.makedirs(home, exist_ok=True)
+            return wd, home
         cmd = ['rsync', '-rc', '--delete',
                '--exclude=/.git', '--exclude=/build', '--exclude=/docs',
                '--exclude=*.so', '--exclude=*.c', '--exclude=*.cpp',
